@@ -16,6 +16,12 @@ CHECKS = {
     'C05': ('explicit-state BFS of the real World to fixpoint: deferred deletion x every other operation x process, two-policy table model',
             'E1: deferred deletion mixed with every other World op on the same/other entity, deletion from inside a frame, deferred delete of a never-existing id, any number of process() calls, explored to fixpoint',
             'CPython semantics; table model; admissible policies listed in DESIGN 3/C05', '3/C05'),
+    'C06': ('bounded-exhaustive enumeration of every class DAG (all base orderings) x every component assignment x every query type on the real World',
+            'E3: every class hierarchy Python accepts with <= 5 classes under every ordering of bases (6 classes in most-derived-first order, thorough), every subset of component / processor types on the entity, every query type, all six query methods; oracle issubclass',
+            'CPython semantics (type.__subclasses__, MRO); fresh root classes per hierarchy', '3/C06'),
+    'C07': ('explicit-state BFS of the real World processor list to fixpoint against a stable-sort list model; exhaustive list/probe/window enumeration for desper.bisect vs the standard library',
+            'E1: all add_processor/remove_processor/process histories over 4 processor classes x priorities {None,-1,0,1,5} to fixpoint (fresh and re-added instances); E3: all sorted lists of length <= 6 over 4 values x all probes x all lo/hi windows, keyed and unkeyed',
+            'CPython semantics; standard library bisect as reference', '3/C07'),
 }
 
 NOT_YET = {p: 'check under construction (planned in DESIGN.md section 3); not claimed yet' for p in
